@@ -297,7 +297,7 @@ def worker(states):
             nontrivial = st['n'] >= 2
         elif st['kind'] == 'expr':
             why = check_expr(st, out)
-            case = dict(kind='expr', root=st['root'], ops=st['ops'])
+            case = dict(kind='expr', root=st['root'], ops=st['ops'], pred=st['pred'])
             nontrivial = len(st['ops']) >= 2
         else:
             continue
@@ -311,6 +311,39 @@ def worker(states):
         elif len(out['samples']) < 1 and nontrivial:
             out['samples'].append(case)
     return out
+
+
+
+
+def replay(path):
+    """re-run one stored case (bin/check C18 --replay <file>) against the library as it is now"""
+    import json
+    blob = json.load(open(path))
+    st = _state_of(blob['case'])
+    if st is None:
+        print('REPLAY property=C18: %s holds a recorded observation, not a case of the enumerated universe; it was rejected with: %s'
+              % (path, str(blob.get('why'))[:300]))
+        print('(the file alone does not allow the case to be re-executed: re-run bin/check C18 to observe the library again)')
+        return 2
+    out = _replay_states([st])
+    if out['bad']:
+        print('VIOLATION property=C18 replay=%s' % path)
+        print('  why: %s' % (str(out['bad'][0]['why'])[:400],))
+        return 1
+    print('REPLAY property=C18: the stored case agrees with the specification now (%s)' % path)
+    return 0
+
+
+def _state_of(case):
+    if case.get('kind') == 'seq' and 'oper' in case:
+        return dict(kind='seq', n=case['n'], oper=case['oper'], pred=case['pred'])
+    if case.get('kind') == 'expr' and 'pred' in case:
+        return dict(kind='expr', root=case['root'], ops=case['ops'], pred=case['pred'])
+    return None
+
+
+def _replay_states(states):
+    return worker(states)
 
 
 # ---- known findings --------------------------------------------------------------------------
